@@ -419,10 +419,15 @@ pub fn panic_class(msg: &str) -> String {
 // ---------------------------------------------------------------------------------------------
 // parallel driver: deterministic per-item seeds, merge in item order
 
+static PAR_RUN_CALLS: AtomicUsize = AtomicUsize::new(0);
+
 pub fn par_run<F>(ctx: &Ctx, n_items: usize, f: F) -> Report
 where
     F: Fn(usize, &mut Report) + Sync,
 {
+    // the first parallel loop of a run is the property's main loop: its item index is recorded in
+    // every witness (`"item"`), and `--item i` restricts that loop to one item (fast replay)
+    let is_main_loop = PAR_RUN_CALLS.fetch_add(1, Ordering::SeqCst) == 0;
     let next = AtomicUsize::new(0);
     let results: Mutex<Vec<(usize, Report)>> = Mutex::new(Vec::new());
     let threads = ctx.threads.max(1).min(n_items.max(1));
@@ -438,9 +443,11 @@ where
                     if i >= n_items {
                         break;
                     }
-                    if let Some(only) = ctx.only_item {
-                        if i != only {
-                            continue;
+                    if is_main_loop {
+                        if let Some(only) = ctx.only_item {
+                            if i != only {
+                                continue;
+                            }
                         }
                     }
                     set_item(i as u64);
@@ -452,6 +459,14 @@ where
                     }
                     pdatastructs::verif::set_kick_budget(None);
                     rep.absorb_events();
+                    if is_main_loop {
+                        for v in rep.violations.iter_mut() {
+                            if let Value::Object(m) = &mut v.witness {
+                                m.entry("item").or_insert(json!(i));
+                                m.entry("profile").or_insert(json!(crate::PROFILE));
+                            }
+                        }
+                    }
                     local.push((i, rep));
                     // fold to bound memory
                     if local.len() >= 64 {
